@@ -213,6 +213,39 @@ def clause_binding_agreement(prog, rep):
     rep.floor("aead-siblings", "key / AAD arguments taken from a parsed MediaReference", m, 11)
 
 
+NORMALISERS = ("trim", "trim_start", "trim_end", "trim_matches", "trim_start_matches", "trim_end_matches", "to_lowercase", "to_uppercase",
+               "to_ascii_lowercase", "to_ascii_uppercase", "replace", "replacen", "strip_prefix", "strip_suffix", "nfc", "nfkc")
+
+
+def clause_imeta_verbatim(prog, rep):
+    """the receiver derives key and AAD from the file name / version / hash it reads out of the imeta tag; the sender bound the values
+    exactly as given.  The tag parser therefore takes the values verbatim: no trimming / case folding / replacing between the tag
+    entry and the stored MediaReference (MIME canonicalisation happens in the shared validator on both sides)."""
+    fs = [f for f in prog.nontest_fns(("mdk_core",)) if "encrypted_media" in f.path and not f.is_closure()
+          and any(True for _ in f.aggregates("MediaReference")) and any(c.name in ("splitn", "split_once", "split") for c in f.live_calls())]
+    rep.floor("aead-siblings", "imeta tag parser (builds a MediaReference from tag entries)", len(fs), 1)
+    for f in fs:
+        fam = [f] + [prog.fns[p] for p in prog.fns if prog.fns[p].root == f.path and prog.fns[p] is not f]
+        bad = []
+        for g in fam:
+            for c in g.live_calls():
+                if c.name in NORMALISERS and (c.krate in ("core", "alloc", "std")):
+                    bad.append("%s()" % c.name)
+                for a in c.args:
+                    fnp = (a.get("c") or {}).get("fn") if isinstance(a, dict) else None
+                    if fnp and fnp.split("::")[-1] in NORMALISERS:
+                        bad.append("%s (passed to %s)" % (fnp.split("::")[-1], c.name))
+            for bb, st in g.stmts():
+                for o in st.get("o", []):
+                    fnp = (o.get("c") or {}).get("fn") if isinstance(o, dict) else None
+                    if fnp and fnp.split("::")[-1] in NORMALISERS:
+                        bad.append(fnp.split("::")[-1])
+        rep.check(not bad, "aead-siblings", "imeta-values-verbatim/%s" % f.label(),
+                  "tag values reach the MediaReference as written (no trimming / case folding in the parser)",
+                  "the imeta parser normalises values (%s): a file name the sender bound with leading / trailing whitespace (accepted by the "
+                  "validator) is read back differently, the receiver derives another key and decryption fails" % ", ".join(sorted(set(bad))), f.loc())
+
+
 def clause_hash_check(prog, rep):
     """the decrypted bytes are returned only after their hash was compared with the announced one"""
     core = K.core_scope(prog)
@@ -367,6 +400,7 @@ def run(ctx, rep):
     clause_media(prog, rep)
     if prog.find(name="encrypt_data_with_aad", crate="mdk_core"):
         clause_binding_agreement(prog, rep)
+        clause_imeta_verbatim(prog, rep)
     clause_hash_check(prog, rep)
     clause_group_image(prog, rep)
     # C17.4 shares C02's clause
